@@ -240,12 +240,17 @@ fn main() {
     let mut lines = vec![];
     let mut unreproduced: Vec<String> = vec![];
     let mut reported_sites = std::collections::BTreeMap::<String, usize>::new();
+    // attempts are capped per site, not globally: one site whose detections depend on the batch they were
+    // found in must not keep the reproducible detections of another site from being replayed
+    let mut attempts = std::collections::BTreeMap::<String, usize>::new();
     for v in &merged.violations {
         let n = reported_sites.entry(v.site.clone()).or_insert(0);
-        *n += 1;
-        if *n > 2 || lines.len() >= 12 || unreproduced.len() >= 8 {
+        let tries = attempts.entry(v.site.clone()).or_insert(0);
+        if *n >= 2 || *tries >= 4 || lines.len() >= 12 || unreproduced.len() >= 64 {
             continue;
         }
+        *n += 1;
+        *tries += 1;
         match report::write_replay(prop.id, v, tier) {
             Ok(p) => {
                 if v.case.get("kind").and_then(|k| k.as_str()) != Some("wedge") {
